@@ -161,8 +161,45 @@ void harness_copy(void)
 }
 #endif
 
+#ifdef FIELDS_HARNESS
+/* the length and distance fields of every copy code, all extra-bit values (no window involved) */
+void harness_fields(void)
+{
+	INPUT_ARRAY(u8, data, BS_N);
+	INPUT(u32, skip); INPUT(u32, c); INPUT(u32, t);
+	LHAPM2Decoder d0;
+	unsigned i, cur, len, off;
+	int got_len, got_off;
+	ASSUME(skip < 8 && c <= 22 && t < 8);
+	for (i = 0; i < BS_N; ++i) bs_data[i] = data[i];
+	bs_bits = 8 * BS_N; bs_pos = skip;
+	dec = d0;
+	sym_off = (int) t;
+
+	got_len = history_get_count(&dec, c);
+	cur = skip;
+	len = pm2_ref_length(c, &cur);
+	CHECK(bs_pos == cur, "C04: length field: none for copy codes 0..14 and 20, 3/3/5/6/7 bits for 15..19");
+	if (len != 0) CHECK(got_len == (int) len, "C04: copy length: 2..16 direct, 17..24, 25..32, 33..64, 65..128, 129..256 by class, 256 for code 20");
+	else CHECK(got_len < 0, "C04: code symbols above 28 are not commands");
+	got_off = history_get_offset(&dec, c);
+	if (len != 0) {
+		off = pm2_ref_offset(c, t, &cur);
+		CHECK(rft_off_calls == (pm2_ref_uses_offset_tree(c) ? 1u : 0u), "C04: the offset tree is consulted for copy codes 1..19 only");
+		CHECK(got_off == (int) off && off < PM2_REF_WINDOW, "C04: distance code: 6 bits for code 0 / class 0, 2^(t+5) + (t+5) bits for class t, 0 for code 20; always inside the 8 KiB window");
+		CHECK(bs_pos == cur, "C04: distance field width");
+		if (c == 19 && len == 256) WITNESS("code 19 reaches 256");
+		if (c == 20) WITNESS("code 20");
+		if (c == 7 && t == 7 && off == 8191) WITNESS("maximal distance");
+	}
+	WITNESS("end");
+}
+#endif
+
 #ifdef LONG_HARNESS
-/* instance parameters: LC copy code 15..20, LPOS window position, LT offset class, LV value of the distance bits */
+/* instance parameters (all concrete, so that control flow and every window index are concrete and only the window
+ * CONTENT and the countdown are symbolic): LC copy code 15..20, LX value of its length bits, LPOS window position,
+ * LT offset class, LV value of the distance bits */
 static void put_bits(unsigned pos, unsigned val, unsigned n)
 {
 	unsigned i;
@@ -170,17 +207,16 @@ static void put_bits(unsigned pos, unsigned val, unsigned n)
 }
 void harness_long(void)
 {
-	INPUT(u32, lx); INPUT(u32, probe); INPUT(u32, tstate); INPUT(u32, remaining);
+	INPUT(u32, tstate); INPUT(u32, remaining);
 	LHAPM2Decoder d0;
 	u8 out[OUTPUT_BUFFER_SIZE];
-	const unsigned c = LC, pos0 = LPOS;
+	const unsigned c = LC, pos0 = LPOS, skip = 3;
 	const unsigned lbits = c <= 19 ? pm2_ref_len_class[c <= 19 ? c - 15 : 0].bits : 0;
-	const unsigned skip = (8 - lbits) & 7;         /* the symbolic length bits end on a byte boundary, the distance bits are constants */
 	unsigned i, cur, len, off, d;
 	size_t n;
-	ASSUME(lx < (1u << lbits) && probe < RING_BUFFER_SIZE && tstate >= 1 && tstate <= 4 && remaining >= 1 && remaining <= 4096);
+	ASSUME(tstate >= 1 && tstate <= 4 && remaining >= 1 && remaining <= 4096);
 	bs_bits = 8 * BS_N; bs_pos = skip;
-	bs_data[0] = (u8) lx;                          /* low lbits bits of byte 0 = bits skip..7 */
+	put_bits(skip, LX, lbits);
 	if (c != 20) put_bits(skip + lbits, LV, LT == 0 ? 6 : LT + 5);
 	dec = d0;
 	set_state(pos0, tstate, remaining);
@@ -196,23 +232,23 @@ void harness_long(void)
 	CHECK(len >= 17 && len <= 256 && n == len, "C04: copy codes 15..20 copy 17..256 bytes (class base + extra bits)");
 	CHECK(bs_pos == cur, "C04: copy command = code symbol + length bits [+ offset class + distance bits]");
 	CHECK(c != 20 || (off == 0 && bs_pos == skip), "C04: copy code 20 is 256 bytes at distance 1 without further bits");
-	for (i = 0; i < OUTPUT_BUFFER_SIZE; ++i) {
+	for (i = 0; i < OUTPUT_BUFFER_SIZE + 8; ++i) {
+		unsigned at = (pos0 + i) % RING_BUFFER_SIZE;
 		if (i < len) {
 			u8 expect = i >= d ? out[i - d] : d0.ringbuf[(pos0 + RING_BUFFER_SIZE - d + i) % RING_BUFFER_SIZE];
 			CHECK(out[i] == expect, "C04: copy output is the LZ77 expansion at distance offset+1 over the 8 KiB window (self-overlap, wrap-around)");
 			CHECK(upd_log[i] == out[i], "C04: every copied byte is moved to the front of the history, in order");
-			CHECK(dec.ringbuf[(pos0 + i) % RING_BUFFER_SIZE] == out[i], "C04: window after a copy holds the output");
+			CHECK(dec.ringbuf[at] == out[i], "C04: window after a copy holds the output");
+		} else {
+			CHECK(dec.ringbuf[at] == d0.ringbuf[at], "C04: window beyond the copied range unchanged");
 		}
 	}
+	CHECK(dec.ringbuf[(pos0 + RING_BUFFER_SIZE - 1) % RING_BUFFER_SIZE] == d0.ringbuf[(pos0 + RING_BUFFER_SIZE - 1) % RING_BUFFER_SIZE]
+	   && dec.ringbuf[(pos0 + 4000) % RING_BUFFER_SIZE] == d0.ringbuf[(pos0 + 4000) % RING_BUFFER_SIZE], "C04: window before the write position unchanged");
 	CHECK(upd_n == len && find_calls == 0, "C04: a copy consults the history list only to update it");
 	CHECK(dec.ringbuf_pos == (pos0 + len) % RING_BUFFER_SIZE, "C04: window position advances by the copy length modulo 8 KiB");
-	{
-		unsigned e = (probe + RING_BUFFER_SIZE - pos0) % RING_BUFFER_SIZE;
-		if (e >= len) CHECK(dec.ringbuf[probe] == d0.ringbuf[probe], "C04: window outside the copied range unchanged");
-	}
 	check_countdown(remaining, len);
-	if (lx == (1u << lbits) - 1) WITNESS("longest copy of the class");
-	if (lx == 0 && remaining == 20) WITNESS("shortest copy of the class, tables due inside");
+	if (remaining == 20) WITNESS("tables due inside the copy");
 	WITNESS("end");
 }
 #endif
